@@ -56,7 +56,7 @@ MANIFEST = {
             "Each generated case is compared three ways (implementation = model, implementation = specification). "
             "Translator ties (TRAN): the accumulator model is no longer only hand-written — ringPos_eq_source (coord_pos_relative_to_ring whole: prologue, "
             "winding loop with early return, final test), calculateCoordinatePosition_eq_source (the calculate_coordinate_position bodies of Coord, Point, "
-            "Line, LineString, Triangle, Rect, MultiPoint, Polygon incl. the loop over interiors, MultiLineString, MultiPolygon as state transformers "
+            "Line, LineString, Triangle, Rect, MultiPoint, Polygon incl. the loop over interiors, MultiLineString, MultiPolygon, GeometryCollection as state transformers "
             "PosAcc -> PosAcc) and coordinatePosition_eq_source (the provided trait method) state that calcPoint / calcLine / calcLineString / "
             "calcTriangle / calcRect / calcPolygon+calcHoles / calcMultiPolygon / coordPos equal the terms regenerated from the Rust bodies on this run; "
             "contains_kernels_eq_source does the same for Line::contains(Coord), Line::contains(Line), Rect::contains(Polygon) (loop with early return and "
